@@ -9,6 +9,7 @@ unwinding continues in the caller's cleanup.  This is the exact semantics of the
 disappears as a separate body (its closures stay).  Functions that cannot be inlined (recursive, address taken, trait methods) are left
 alone and the rules see them as they are."""
 import copy
+import json
 import os
 
 from .facts import strip_generics
@@ -38,6 +39,29 @@ def _norm_sig(sig):
     return re.sub(r"\s+", " ", s).strip()
 
 
+def _known_params():
+    try:
+        with open(os.path.join(HERE, "known_items.json")) as f:
+            return json.load(f).get("fns", {})
+    except Exception:
+        return {}
+
+
+KNOWN_PARAMS = _known_params()
+
+
+def _known_adts():
+    try:
+        with open(os.path.join(HERE, "known_items.json")) as f:
+            return set(json.load(f).get("adts", {}))
+    except Exception:
+        return set()
+
+
+KNOWN_ADTS = _known_adts()
+CRATE_MODS = ("map::", "node::", "raw::", "iter::", "set::", "map_ref::", "set_ref::", "reclaim::", "serde_impls::", "rayon_impls::")
+
+
 def reidentify(raw, known):
     """private functions of the pinned tree that were renamed or moved: an unknown function with the same signature as exactly one
     MISSING known function, in the same impl/module (rename) or with the same name elsewhere (move), is that function.  Returns
@@ -52,10 +76,16 @@ def reidentify(raw, known):
         sig = _norm_sig(b.get("sig", ""))
         cont, _, name = sid.rpartition("::")
         cands = []
+        pnames = [b["locals"][i].get("name") for i in range(1, b.get("args", 0) + 1)]
         for k, ksig in missing.items():
             if k in taken or ksig != sig:
                 continue
             kcont, _, kname = k.rpartition("::")
+            # the parameters keep their names when a function is renamed or moved; a different function that merely has the same
+            # types (the second half of a split one, say) does not pass for it
+            kp = [n for n, _ in KNOWN_PARAMS.get(k, {}).get("params", [])]
+            if kp and pnames and kp != pnames and kname != name:
+                continue
             if kcont == cont or kname == name:
                 cands.append(k)
         if len(cands) == 1:
@@ -226,6 +256,20 @@ def sroa(body):
             if key in t and isinstance(t[key], dict) and "local" in t[key]:
                 bad.add(t[key]["local"])
     cand = {l for l in whole_defs if l not in bad and l != 0 and l > body.get("args", 0)}
+    # arities flow along whole copies (to a fixpoint, whatever the order the locals are visited in)
+    grew = True
+    while grew:
+        grew = False
+        for l in cand:
+            if l in arity:
+                continue
+            for k, st in whole_defs[l]:
+                if k == "copy":
+                    src = (st["rv"]["use"].get("move") or st["rv"]["use"].get("copy"))["local"]
+                    if src in cand and src in arity:
+                        arity[l] = arity[src]
+                        grew = True
+                        break
     # every whole definition is an aggregate of the same arity or a whole copy from another candidate; plain locals that merely receive
     # a whole copy of a non-candidate are not touched
     changed = True
@@ -643,19 +687,128 @@ def _mentions(body, ids):
     return found
 
 
+FN_TRAITS = ("ops::FnOnce", "ops::FnMut", "ops::Fn")
+
+
+def direct_local_closures(raw):
+    """closures that are only ever CALLED, directly, by the function that creates them (`let append = |..| {..}; append(a, b);`): local
+    helpers spelt as closures.  Their call sites are rewritten into plain calls of the closure body -- the environment reference as first
+    argument, the argument tuple spread into its fields -- so that they are inlined like any other new helper.  A closure that is passed
+    to anything (an iterator adaptor, a callback parameter) is not touched."""
+    by_id = {b["id"]: b for b in raw["bodies"]}
+    out = set()
+    for P in raw["bodies"]:
+        made = {}
+        for blk in P["blocks"]:
+            for st in blk["stmts"]:
+                if st["k"] == "assign" and "agg" in st["rv"] and "closure" in st["rv"]["agg"] and not st["dst"]["proj"]:
+                    cid = st["rv"]["agg"]["closure"]
+                    if cid in by_id and by_id[cid].get("parent") == P["id"]:
+                        made.setdefault(cid, []).append(st["dst"]["local"])
+        for cid, locs in made.items():
+            if len(locs) != 1:
+                continue
+            cl = locs[0]
+            refs, ok, sites = set(), True, []
+            # one pass to find references to the closure local, a second to classify every use
+            for blk in P["blocks"]:
+                for st in blk["stmts"]:
+                    if st["k"] == "assign" and "ref" in st["rv"] and st["rv"]["ref"]["local"] == cl and not st["rv"]["ref"]["proj"] and not st["dst"]["proj"]:
+                        refs.add(st["dst"]["local"])
+            holders = refs | {cl}
+
+            def uses(o, acc):
+                if isinstance(o, dict):
+                    if "local" in o and isinstance(o["local"], int) and o["local"] in holders:
+                        acc.append(o)
+                    for k, v in o.items():
+                        uses(v, acc)
+                elif isinstance(o, list):
+                    for x in o:
+                        uses(x, acc)
+            for bi, blk in enumerate(P["blocks"]):
+                for st in blk["stmts"]:
+                    if st["k"] in ("storage_live", "storage_dead"):
+                        continue
+                    if st["k"] == "assign" and not st["dst"]["proj"] and st["dst"]["local"] in holders:
+                        acc = []
+                        uses(st["rv"], acc)
+                        if st["dst"]["local"] in refs and "ref" in st["rv"] and st["rv"]["ref"]["local"] == cl:
+                            continue
+                        if st["dst"]["local"] == cl and "agg" in st["rv"]:
+                            continue
+                        ok = False
+                        continue
+                    acc = []
+                    uses(st, acc)
+                    if acc:
+                        ok = False
+                t = blk["term"]
+                acc = []
+                uses(t, acc)
+                if not acc:
+                    continue
+                if t["k"] == "drop" and t["place"]["local"] in holders:
+                    continue
+                cal = t.get("callee") or {}
+                a0 = (t.get("args") or [{}])[0]
+                p0 = a0.get("move") or a0.get("copy") if isinstance(a0, dict) else None
+                if t["k"] == "call" and (cal.get("trait") or "").endswith(FN_TRAITS) and len(t.get("args", [])) == 2 and p0 and not p0["proj"] \
+                        and p0["local"] in holders and len(acc) == 1 and (cal.get("self_ty") or {}).get("head") == "closure:" + cid:
+                    sites.append((bi, t))
+                else:
+                    ok = False
+            # nobody else knows the closure
+            for B in raw["bodies"]:
+                if B is P or B["id"] == cid:
+                    continue
+                if cid in json.dumps(B["blocks"]):
+                    ok = False
+            if not ok or not sites:
+                continue
+            C = by_id[cid]
+            n = C["args"] - 1
+            good = True
+            for bi, t in sites:
+                tup = t["args"][1].get("move") or t["args"][1].get("copy")
+                if not tup or tup["proj"]:
+                    good = False
+            if not good:
+                continue
+            for bi, t in sites:
+                tup = (t["args"][1].get("move") or t["args"][1].get("copy"))["local"]
+                t["args"] = [t["args"][0]] + [{"move": {"local": tup, "proj": [{"field": k, "name": str(k), "of": "tuple"}]}} for k in range(n)]
+                t["callee"] = {"def": cid, "resolved": cid, "path": cid, "crate": "flurry", "name": "{closure}", "substs": [], "kind": "local",
+                               "direct_closure_call": True}
+            out.add(cid)
+    return out
+
+
 def inline_new_helpers(raw, log=None):
     """rewrite raw['bodies'] in place; returns the list of helper ids that were inlined away"""
     known = known_functions()
     bodies = raw["bodies"]
     by_id = {b["id"]: b for b in bodies}
+    try:
+        direct = direct_local_closures(raw)
+    except Exception:
+        direct = set()
     alias = reidentify(raw, known)
     raw["sid_alias"] = alias
     cand = {}
     for b in bodies:
+        if b["id"] in direct and not any(blk["term"]["k"] == "other" for blk in b["blocks"]):
+            cand[b["id"]] = b
+            continue
         if b["kind"] == "Closure" or b.get("exported") or b.get("reachable"):
             continue
         if (b.get("impl") or {}).get("trait"):
-            continue
+            # trait methods are called through the trait; those of a type the pinned tree does not have (a private iterator or wrapper
+            # introduced next to the existing code) are helpers like any other where the call resolves statically -- except Drop, which
+            # runs implicitly
+            imp = b["impl"]
+            if imp.get("trait") in ("std::ops::Drop", "core::ops::Drop") or imp.get("self_head") in KNOWN_ADTS or not imp.get("self_head", "").startswith(CRATE_MODS):
+                continue
         if strip_generics(b["id"]) in known or strip_generics(b["id"]) in alias:
             continue
         if any(blk["term"]["k"] == "other" for blk in b["blocks"]):
@@ -668,7 +821,7 @@ def inline_new_helpers(raw, log=None):
     ids = set(cand)
     # drop helpers used as values, and recursive ones (cycle among candidates)
     for b in bodies:
-        ids -= _mentions(b, ids)
+        ids -= (_mentions(b, ids) - direct)
     edges = {i: {r for _, r in _call_targets(cand[i], ids)} for i in ids}
 
     def reaches_self(i):
